@@ -208,6 +208,10 @@ func (e *Exec) callFunction(st *State, fr *Frame, fn *ssa.Function, args []Value
 	if m, ok := models[name]; ok {
 		return m(e, st, fr, fn, args, pos)
 	}
+	// oldspec_*: a spec function evaluated in the entry state of the call under specification (two-state clauses)
+	if strings.HasPrefix(fn.Name(), "oldspec_") && e.oldState != nil && !e.inOldSpec {
+		return e.callOldSpec(st, fr, fn, args, pos)
+	}
 	// contract?
 	if sp := e.specs.ForFn(fn); sp != nil && e.specMode == 0 {
 		if sp.Trusted || (fnName(fn) != e.curFn && sp.hasContract() && !sp.Inline && e.inlineAll == 0) {
@@ -336,6 +340,9 @@ func (e *Exec) methodOf(t types.Type, m *types.Func) *ssa.Function {
 
 func (e *Exec) invoke(st *State, fr *Frame, cc *ssa.CallCommon, recv *IfaceV, args []Value, pos token.Pos) []Outcome {
 	e.oblige(st, fr, "safe.nil", pos, Not(Eq(recv.Tid, IntConst(0))))
+	if st.dead || recv.Tid.Op == "intconst" && recv.Tid.Val == 0 {
+		return nil
+	}
 	if recv.Tid.Op == "intconst" && recv.Tid.Val != 0 && e.tidTypes[int(recv.Tid.Val)-1] == nil {
 		if outs, ok := e.invokeModel(st, fr, cc, recv, args, pos); ok {
 			return outs
@@ -436,6 +443,17 @@ func (e *Exec) primitive(st *State, fr *Frame, fn *ssa.Function, args []Value, p
 	if !strings.HasPrefix(n, "prim_") && !strings.HasPrefix(n, "ghost_") {
 		return nil, false
 	}
+	if strings.HasPrefix(n, "prim_mapall2") {
+		return one(st, e.primMapAll2(st, fr, args[0].(*MapV), args[1].(*FuncV))), true
+	}
+	if strings.HasPrefix(n, "prim_mapall") {
+		return one(st, e.primMapAll(st, fr, args[0].(*MapV), args[1].(*FuncV))), true
+	}
+	if strings.HasPrefix(n, "prim_freshobj") {
+		// the object was allocated during the call
+		p := args[0].(*PtrV)
+		return one(st, IntLe(fr.entryTopOr(e), ptrToTerm(p))), true
+	}
 	switch n {
 	case "prim_sameslice":
 		a, b := args[0].(*SliceV), args[1].(*SliceV)
@@ -499,6 +517,99 @@ func (e *Exec) primForall(st *State, fr *Frame, n *Term, f *FuncV) *Term {
 		e.specDefs = append(e.specDefs, Forall([]*Term{i}, Implies(rng, D), pats...))
 	}
 	return Forall([]*Term{i}, Implies(rng, Implies(D, R)), pats...)
+}
+
+// primMapAll: for every key present in the map, f(key, value) holds.
+func (e *Exec) primMapAll(st *State, fr *Frame, m *MapV, f *FuncV) *Term {
+	if f.Fn == nil {
+		panic(unsupported("prim_mapall needs a function literal"))
+	}
+	k := BoundVar("k", mapKeySort(m.T))
+	s2 := st.Clone()
+	val, present := e.mapLoad(s2, m, k)
+	np, nf := len(s2.pc), len(s2.facts)
+	saved := e.specDefs
+	e.specDefs = nil
+	e.specMode++
+	savedBase := e.specBase
+	e.specBase = np
+	outs := e.callFunction(s2, &Frame{depth: fr.depth + 1}, f.Fn.(*ssa.Function), []Value{k, val}, f.Bind, token.NoPos)
+	e.specBase = savedBase
+	e.specMode--
+	defs := e.specDefs
+	e.specDefs = saved
+	var alts, facts []*Term
+	for _, o := range outs {
+		r := o.results[0].(*Term)
+		alts = append(alts, And(And(o.st.pc[np:]...), r))
+		for _, ft := range o.st.facts[nf:] {
+			if ft.hasBound {
+				facts = append(facts, ft)
+			} else {
+				st.AssumeFact(ft)
+			}
+		}
+	}
+	for _, ft := range s2.facts[len(st.facts):nf] {
+		if ft.hasBound {
+			facts = append(facts, ft)
+		}
+	}
+	R := Or(alts...)
+	D := And(defs...)
+	var pats []*Term
+	if vt, ok := val.(*PtrV); ok && vt.Kind == PObj {
+		pats = []*Term{vt.Base}
+	}
+	if len(facts) > 0 {
+		st.AssumeFact(Forall([]*Term{k}, And(facts...), pats...))
+	}
+	if e.specAssert {
+		e.specDefs = append(e.specDefs, Forall([]*Term{k}, Implies(present, D), pats...))
+	}
+	return Forall([]*Term{k}, Implies(present, Implies(D, R)), pats...)
+}
+
+// primMapAll2: for every two distinct keys present in the map, f(k1, k2, v1, v2) holds.
+func (e *Exec) primMapAll2(st *State, fr *Frame, m *MapV, f *FuncV) *Term {
+	k1 := BoundVar("k1", mapKeySort(m.T))
+	k2 := BoundVar("k2", mapKeySort(m.T))
+	s2 := st.Clone()
+	v1, p1 := e.mapLoad(s2, m, k1)
+	v2, p2 := e.mapLoad(s2, m, k2)
+	np, nf := len(s2.pc), len(s2.facts)
+	saved := e.specDefs
+	e.specDefs = nil
+	e.specMode++
+	savedBase := e.specBase
+	e.specBase = np
+	outs := e.callFunction(s2, &Frame{depth: fr.depth + 1}, f.Fn.(*ssa.Function), []Value{k1, k2, v1, v2}, f.Bind, token.NoPos)
+	e.specBase = savedBase
+	e.specMode--
+	defs := e.specDefs
+	e.specDefs = saved
+	var alts []*Term
+	for _, o := range outs {
+		alts = append(alts, And(And(o.st.pc[np:]...), o.results[0].(*Term)))
+		for _, ft := range o.st.facts[nf:] {
+			if !ft.hasBound {
+				st.AssumeFact(ft)
+			}
+		}
+	}
+	R := Or(alts...)
+	D := And(defs...)
+	var pats []*Term
+	if a, ok := v1.(*PtrV); ok {
+		if b, ok := v2.(*PtrV); ok {
+			pats = []*Term{a.Base, b.Base}
+		}
+	}
+	rng := And(p1, p2, Not(Eq(k1, k2)))
+	if e.specAssert {
+		e.specDefs = append(e.specDefs, Forall([]*Term{k1, k2}, Implies(rng, D), pats...))
+	}
+	return Forall([]*Term{k1, k2}, Implies(rng, Implies(D, R)), pats...)
 }
 
 // selectPatterns finds a select term whose index is exactly the bound variable (usable as a trigger).
@@ -792,3 +903,41 @@ func (e *Exec) tidNamed(name string) *Term {
 }
 
 func nilIface() *IfaceV { return &IfaceV{Tid: IntConst(0), Ref: IntConst(0)} }
+
+// callOldSpec evaluates fn (a pure spec function) in the heap of the entry state; slice results are snapshotted into
+// fresh arrays of the current state so that their contents stay the old ones.
+func (e *Exec) callOldSpec(st *State, fr *Frame, fn *ssa.Function, args []Value, pos token.Pos) []Outcome {
+	old := e.oldState.Clone()
+	old.pc = append([]*Term(nil), st.pc...)
+	old.facts = append([]*Term(nil), st.facts...)
+	old.base, old.allocN = st.base, st.allocN
+	e.inOldSpec = true
+	outs := e.callFunction(old, fr, fn, args, nil, pos)
+	e.inOldSpec = false
+	var res []Outcome
+	for _, o := range outs {
+		s2 := st
+		if len(outs) > 1 {
+			s2 = st.Clone()
+		}
+		for _, t := range o.st.pc[len(st.pc):] {
+			s2.Assume(t)
+		}
+		for _, t := range o.st.facts[len(st.facts):] {
+			s2.AssumeFact(t)
+		}
+		var rs []Value
+		for _, r := range o.results {
+			if sl, ok := r.(*SliceV); ok {
+				nr := s2.NewRef()
+				for _, cp := range components(sl.Elem) {
+					s2.setArrayOf(sl.Elem, cp, nr, o.st.arrayOf(sl.Elem, cp, sl.Arr))
+				}
+				r = &SliceV{Arr: nr, Off: sl.Off, Len: sl.Len, Cap: sl.Cap, Elem: sl.Elem}
+			}
+			rs = append(rs, r)
+		}
+		res = append(res, Outcome{s2, rs})
+	}
+	return res
+}
